@@ -232,10 +232,10 @@ def r3_swaps(ctx):
         ok = False
         if len(vals) == 1:
             v = q.subst(vals[0], {}, caps)
-            want = "Ord::min(CoinValue::CoinValue{0: melmint::multiply_frac(%s.%s, Ratio::new(%s($2.outputs, 0).value.0, %s))}, MAX_COINVAL)" % (
+            want = "Ord::min(melmint::multiply_frac(%s.%s, Ratio::new(%s($2.outputs, 0).value.0, %s)), MAX_COINVAL)" % (
                 SW, comp, IDX, sig(q.novers((tl if is_left else tr)[0][1])))
             got = sig(q.novers(v))
-            want2 = "Ord::min(CoinValue::CoinValue{0: melmint::pro_rata(%s.%s, %s($2.outputs, 0).value.0, %s)}, MAX_COINVAL)" % (
+            want2 = "Ord::min(melmint::pro_rata(%s.%s, %s($2.outputs, 0).value.0, %s), MAX_COINVAL)" % (
                 SW, comp, IDX, sig(q.novers((tl if is_left else tr)[0][1])))
             ok = got in (want, want2) or got in (want.replace("Ord::min(", "").replace(", MAX_COINVAL)", ""), want2.replace("Ord::min(", "").replace(", MAX_COINVAL)", ""))
         r.check(bool(ok), "rewrite/%s/value" % lab, "payout = multiply_frac(swap_many.%s, own/%s)" % (comp, tot),
